@@ -61,11 +61,23 @@ def rand_spec(seed, chains=False):
     return {'roles': roles, 'normalizations': norms, 'reifications': reifs}
 
 
+_spec_n = [0]
+
+
 def from_spec(spec, name):
-    m = Model(roles=spec.get('roles'), normalizations=spec.get('normalizations'),
-              reifications=[tuple(r) for r in spec.get('reifications', [])])
+    # the reification table is documented as an Iterable: hand it over as a list, a tuple or a
+    # one-shot generator in turn
+    _spec_n[0] += 1
+    reifs = [tuple(r) for r in spec.get('reifications', [])]
+    form = _spec_n[0] % 3
+    arg = reifs if form == 0 else (tuple(reifs) if form == 1 else (r for r in reifs))
+    kw = {}
+    if spec.get('top_role'):
+        kw['top_role'] = spec['top_role']
+    m = Model(roles=spec.get('roles'), normalizations=spec.get('normalizations'), reifications=arg, **kw)
     rm = RefModel(roles=list(spec.get('roles', {})), normalizations=spec.get('normalizations'),
-                  reifications=spec.get('reifications', []), name=name)
+                  reifications=spec.get('reifications', []), name=name,
+                  top_role=spec.get('top_role', ':TOP'))
     return m, rm
 
 
@@ -114,6 +126,10 @@ def _get(name):
     elif name == 'mini':
         m, rm = from_spec(MINI, name)
         e = (name, m, rm, MINI)
+    elif name == 'miniroot':
+        spec = dict(MINI, top_role=':ROOT')
+        m, rm = from_spec(spec, name)
+        e = (name, m, rm, spec)
     elif name.startswith('rand'):
         spec = rand_spec(int(name[4:]))
         m, rm = from_spec(spec, name)
